@@ -75,9 +75,17 @@ partial def showVal : Val → String
   | .err _ => "X"
 
 /-- methods and computed attributes are answered from recorded pseudo-fields of the receiver. -/
-def recordedEnv : Env :=
-  { method := fun recv m _ => match recv with
-      | .obj _ _ fs => lookupField fs (m ++ "()")
+def recordedEnv0 : Env :=
+  { method := fun recv m args => match recv with
+      | .obj _ _ fs =>
+          -- a call with one plain argument is looked up under that argument first ("<method>(<arg>)"), then "<method>()"
+          let keyed := match args with
+            | [.str k] => lookupField fs (m ++ "(" ++ k ++ ")")
+            | [.int i] => lookupField fs (m ++ "(" ++ toString i ++ ")")
+            | _ => Option.none
+          match keyed with
+          | some v => some v
+          | none => lookupField fs (m ++ "()")
       | _ => Option.none
     func := fun f args => match f, args with
       | "isinstance", [.obj c _ fs, .str want] =>
@@ -86,6 +94,15 @@ def recordedEnv : Env :=
       | "OperationGraphNode", [.tuple [.str "operation", op]] => some (.obj "OperationGraphNode" 999999 [("operation", op)])
       -- a constructor / module function the fragment does not know: the structural value (name, arguments…)
       | f, args => if f.contains '.' || (f.front.isUpper) then some (.tuple (.str f :: args)) else Option.none }
+
+/-- a module-level function that is itself translated is RUN (one level: the callee sees `recordedEnv0`). -/
+def recordedEnv : Env :=
+  { recordedEnv0 with
+    func := fun f args => match recordedEnv0.func f args with
+      | some v => some v
+      | none => match Qco.Gen.PySrc.all.find? (fun p => p.2.name == f) with
+        | some (_, fn) => some (callFn recordedEnv0 fn args)
+        | none => Option.none }
 
 partial def parseAll (toks : List String) : Option (List Val) :=
   match toks with
